@@ -64,6 +64,9 @@ T = {
  "C16": ("Coq proof (explicit threading of the global generator: reseeded initialisation and seeded initialisers ignore the incoming state and any history of fits/draws; statistics, WCCN scatter and grouping invariant under sample, class and label permutations; seeding facts generated from /repo/src) + repeated-fit / permutation oracle",
          "Theorems + generated structural obligation (create_UVD calls np.random.seed(random_state) before drawing; k_init receives random_state; no other use of the global generator in k-means/GMM/WCCN); the oracle refits with perturbed global RNG states and shuffled histories (bit-identical) and with permuted samples / class ids.",
          "D12 (seeded string initialisers depend on row order, inside dask_ml) is a known finding.", "DESIGN.md 4/C16"),
+ "C15": ("Coq proof (under x -> a*x+b per feature: per-component and total log-likelihood shift by -sum ln|a|, responsibilities invariant, statistics equivariant, one ML EM step equivariant, linear scores invariant with offsets scaled; k-means distances scale by s^2 and assignments are invariant under translation + uniform scaling) + metamorphic oracle on the implementation",
+         "Theorems over R for any sizes; the oracle trains/scores on transformed inputs (scales of random sign, 1e-3..1e3, shifts up to 1e2; rotations for k-means) for GMM ML/MAP with all switch settings, linear scoring, ISV/JFA factors/scores/client mean, i-vectors.",
+         "MAP with variance adaptation is not equivariant today: known finding D2 (shared with C05); the FA/i-vector invariances are covered by the oracle, not yet by theorems.", "DESIGN.md 4/C15"),
 }
 
 NOT_YET = "check not built yet in this round (the proof technique applies; see DESIGN.md section 4)"
